@@ -117,6 +117,9 @@ def mask(src):
             j = src.find("*/", i + 2)
             j = n if j < 0 else j + 2
             blank(i, j); i = j
+        elif src.startswith("[[", i) and src.find("]]", i) > 0 and "\n" not in src[i:src.find("]]", i)] and not src.startswith("[[fallthrough", i):
+            j = src.find("]]", i) + 2          # attribute specifier: no semantics
+            blank(i, j); i = j
         elif c == '"':
             if i >= 1 and src[i - 1] == "R":                       # raw string R"delim( ... )delim"
                 k = src.find("(", i)
@@ -146,10 +149,16 @@ def mask_preprocessor(S, M):
     """preprocessor directive lines blanked; text of conditional branches that are known not to be compiled blanked as well"""
     out = list(M)
     pos, stack = 0, []          # stack of [active?, known?, any branch taken]
+    cont = False                # continuation line of a directive (`#define ... \`)
     for line in S.split("\n"):
         end = pos + len(line)
         st = M[pos:end].strip()
-        if st.startswith("#"):
+        if cont:
+            cont = line.rstrip().endswith("\\")
+            for k in range(pos, end):
+                out[k] = " "
+        elif st.startswith("#"):
+            cont = line.rstrip().endswith("\\")
             m = re.match(r"#\s*(ifdef|ifndef|if|elif|else|endif)\b\s*(.*)", st)
             if m:
                 d, arg = m.group(1), m.group(2).strip()
